@@ -123,6 +123,7 @@ class SelectMaster:
     """C01 clause 1 states the choice; here only: it writes the local Master declaration (and publishes).  Its
     exception-safety (min of an empty candidate set, Master unknown to the mapper) is C01 / C16's."""
     assumed = True
+    effect = 'select_master'
     raises = ()
 
     def modifies(self):
@@ -173,7 +174,11 @@ def view_kept(s, o):
 
 @contract('commander:Commander.on_instances_invalidation', props=[])
 class CommanderOnInstancesInvalidation:
+    """C10 mechanism 'jobs dropped with their instance' (commander group owns what it does).  Effect logged WITH its
+    receiver: the Starter and the Stopper inherit the same method"""
     assumed = True
+    effect = 'on_instances_invalidation'
+    effect_receiver = True
     raises = ()
 
     def modifies(self, invalidated_identifiers, failed_processes):
@@ -185,10 +190,43 @@ class CommanderOnInstancesInvalidation:
 
 @contract('commander:Commander.check', props=[])
 class CommanderCheck:
+    """C10 mechanism 'periodic timeout check' (commander group owns what it does).  Effect logged WITH its receiver"""
     assumed = True
+    effect = 'commander_check'
+    effect_receiver = True
     raises = ()
 
     def modifies(self):
+        return [but_view(self)]
+
+    def post_view(self, old):
+        return view_kept(self, old.self)
+
+
+@contract('commander:Commander.on_event', props=[])
+class CommanderOnEvent:
+    """C10 owns it (the acknowledgement ends / advances the job).  Effect logged WITH its receiver"""
+    assumed = True
+    effect = 'commander_on_event'
+    effect_receiver = True
+    raises = ()
+
+    def modifies(self, process, identifier):
+        return [but_view(self)]
+
+    def post_view(self, old):
+        return view_kept(self, old.self)
+
+
+@contract('context:Context.on_process_state_event', props=[])
+class ContextOnProcessStateEvent:
+    """C11 / C12 own it: the event is applied to the ProcessStatus it names (None: unknown process, or sender not CHECKED
+    / RUNNING); the instance states and the state & modes view are not touched"""
+    assumed = True
+    raises = ()
+    returns = 'Optional[ProcessStatus]'
+
+    def modifies(self, status, event):
         return [but_view(self)]
 
     def post_view(self, old):
